@@ -897,3 +897,10 @@ func Fallocate(fd int, mode uint32, off int64, length int64) error {
 }
 
 func Getpid() int { return 4242 }
+
+// SameFile reports whether the two FileInfos describe the same inode (os.SameFile).
+func SameFile(a, b os.FileInfo) bool {
+	x, ok1 := a.(*fileInfo)
+	y, ok2 := b.(*fileInfo)
+	return ok1 && ok2 && x.n == y.n
+}
